@@ -299,14 +299,15 @@ def run_select(case):
     if case.get("vcont") and ncols == 1:
         values = api.wrap_container(cols["c0"], case["vcont"], name="c0", index=index)
     keys = pd.Series(keyarr, index=index) if case.get("kcont", "series") == "series" else keyarr
-    tr = {"kind": case["kind"], "n": case["n"], "cfg": {k: case.get(k) for k in ("kenc", "ncols", "vdtype", "T", "kcont", "vcont")}}
+    tr = {"kind": case["kind"], "n": case["n"], "cfg": {k: case.get(k) for k in ("kenc", "ncols", "vdtype", "T", "kcont", "vcont", "keep", "sort")}}
     if rle:
         tr["runs"] = case["runs"]
     else:
         tr["keys"], tr["idx"] = ids, [int(x) for x in idx]
     try:
-        gb = call(GroupBy, keys)
-        out = call(getattr(gb, case["kind"]), values, case["n"], keep_input_index=True)
+        keep = bool(case.get("keep", 1))
+        gb = call(GroupBy, keys, sort=bool(case.get("sort", 1)))
+        out = call(getattr(gb, case["kind"]), values, case["n"], keep_input_index=keep)
     except Exception as ex:
         tr.update(out="raise", exc=type(ex).__name__, msg=str(ex)[:160], rows=[], ridx=[])
         return tr
@@ -330,7 +331,16 @@ def run_select(case):
     if not ok:
         rows = [JUNK] * len(rows)      # columns disagree: values were modified
     tr["rows"] = rows
-    if not rle:
+    if not rle and not case.get("keep", 1):
+        # rows listed group by group: (group label[, position within the selection])
+        tr["sort"] = int(case.get("sort", 1))
+        lab, pos = [], []
+        for t_ in out.index.tolist():
+            t_ = t_ if isinstance(t_, tuple) else (t_,)
+            lab.append(kenc.dec(t_[0]))
+            pos.append(int(t_[1]) if len(t_) > 1 else -1)
+        tr["glabels"], tr["gpos"] = lab, pos
+    elif not rle:
         tr["ridx"] = [int(x) for x in out.index.tolist()]
     return tr
 
